@@ -47,6 +47,7 @@ ASSUMPTIONS = [
 ]
 
 ELEM = ["div", "span", "p", "section", "ul", "main"]
+RAWS = ["textarea", "style", "script"]
 VOIDS = ["br", "hr", "img", "input"]
 KEYS = ["id", "title", "lang"]
 P_CLOSERS_E = {0, 2, 3, 4, 5}     # indexes of ELEM that close an open <p>
@@ -135,9 +136,58 @@ def gen_view(rng, depth, in_p=False, bad=False):
         return [9, many(0, 3)]
     if r < 0.92:
         return [10, gen_view(rng, depth - 1, in_p, bad)]
-    if r < 0.97:
+    if r < 0.95:
         return [11, many(0, 3)]
+    if r < 0.975:
+        return gen_raw(rng)
     return [12, gen_inert(rng, min(depth, 2), in_p)]
+
+
+def gen_raw(rng):
+    """textarea / style / script with string children and children that render to nothing"""
+    t = rng.choice([0, 0, 1, 2])
+    parts = []
+    for _ in range(rng.choice([0, 1, 1, 1, 2, 3])):
+        if rng.random() < 0.55:
+            txt = gen_text(rng)
+            if t != 0:
+                txt = txt.replace("<", "(").replace("\r", "")
+            parts.append([1, b(txt)])
+        else:
+            parts.append([0, rng.randrange(3)])
+    content = b"".join(bytes(x[1]) for x in parts if x[0] == 1)
+    if t == 0 and content.startswith(b"\n"):
+        parts = [[1, b("x")]] + parts
+    return [15, t, gen_attrs(rng), parts]
+
+
+def add_suspends(rng, v, ids, p_pending, depth=0):
+    """wrap some sub-views into Suspend; returns the new view"""
+    op = v[0]
+    if op == 2:
+        v = [2, v[1], v[2], [add_suspends(rng, k, ids, p_pending, depth + 1) for k in v[3]]]
+    elif op in (4, 9):
+        v = [op, [add_suspends(rng, k, ids, p_pending, depth + 1) for k in v[1]]]
+    elif op in (5, 7, 8, 10):
+        v = [op, add_suspends(rng, v[1], ids, p_pending, depth + 1)]
+    if op not in (11, 12) and rng.random() < (0.35 if depth else 0.15) and len(ids) < 4:
+        i = len(ids) + 1
+        ids.append(i)
+        return [14, i, int(rng.random() < p_pending), v]
+    return v
+
+
+def strip_suspends(v):
+    op = v[0]
+    if op == 14:
+        return strip_suspends(v[3])
+    if op == 2:
+        return [2, v[1], v[2], [strip_suspends(k) for k in v[3]]]
+    if op in (4, 9, 11):
+        return [op, [strip_suspends(k) for k in v[1]]]
+    if op in (5, 7, 8, 10):
+        return [op, strip_suspends(v[1])]
+    return v
 
 
 def mutate(rng, v, in_p=False):
@@ -179,6 +229,10 @@ def mutate(rng, v, in_p=False):
         return [10, mutate(rng, v[1], in_p)]
     if op == 12:
         return v if r < 0.6 else [12, gen_inert(rng, 1, in_p)]
+    if op == 14:
+        return [14, v[1], v[2], mutate(rng, v[3], in_p)]
+    if op == 15:
+        return gen_raw(rng) if r < 0.5 else v
     return v
 
 
@@ -196,6 +250,8 @@ def content_ok(v, in_p=False):
         return all(content_ok(k, in_p) for k in v[1])
     if op in (5, 7, 8, 10):
         return content_ok(v[1], in_p)
+    if op == 14:
+        return content_ok(v[3], in_p)
     if op == 12:
         return inert_content_ok(v[1], in_p)
     return True
@@ -224,7 +280,139 @@ def count_bound_writable(v):
         return sum(count_bound_writable(k) for k in v[1])
     if op in (5, 7, 8, 10):
         return count_bound_writable(v[1])
+    if op == 14:
+        return 0                      # Suspend::rebuild only spawns a task
+    if op == 15:
+        return 1 if v[2] else 0       # the children of a raw-text element are not hydrated
     return 0
+
+
+def has_raw_parts(v):
+    op = v[0]
+    if op == 15:
+        return len(v[3]) > 0
+    if op == 2:
+        return any(has_raw_parts(k) for k in v[3])
+    if op in (4, 9, 11):
+        return any(has_raw_parts(k) for k in v[1])
+    if op in (5, 7, 8, 10):
+        return has_raw_parts(v[1])
+    if op == 14:
+        return has_raw_parts(v[3])
+    return False
+
+
+def has_raw(v):
+    op = v[0]
+    if op == 15:
+        return True
+    if op == 2:
+        return any(has_raw(k) for k in v[3])
+    if op in (4, 9, 11):
+        return any(has_raw(k) for k in v[1])
+    if op in (5, 7, 8, 10):
+        return has_raw(v[1])
+    if op == 14:
+        return has_raw(v[3])
+    return False
+
+
+def suspend_ids(v):
+    op = v[0]
+    if op == 14:
+        return [v[1]] + suspend_ids(v[3])
+    if op == 2:
+        return [i for k in v[3] for i in suspend_ids(k)]
+    if op in (4, 9, 11):
+        return [i for k in v[1] for i in suspend_ids(k)]
+    if op in (5, 7, 8, 10):
+        return suspend_ids(v[1])
+    return []
+
+
+def pending_ids(v):
+    op = v[0]
+    if op == 14:
+        return ([v[1]] if v[2] else []) + pending_ids(v[3])
+    if op == 2:
+        return [i for k in v[3] for i in pending_ids(k)]
+    if op in (4, 9, 11):
+        return [i for k in v[1] for i in pending_ids(k)]
+    if op in (5, 7, 8, 10):
+        return pending_ids(v[1])
+    return []
+
+
+# ---- an independent printer of what the server sends (used only to delimit the known class of
+# ---- finding F-C05-d: where the stale Position of a pending Suspend changes the markup)
+NAT, FC, NC = "nat", "first", "next"
+
+
+def _esc(t):
+    return t.replace("&", "&amp;").replace("<", "&lt;").replace(">", "&gt;")
+
+
+def _attrs_html(a):
+    return "".join(' %s="%s"' % (KEYS[k], _esc(C.show_bytes(x)).replace('"', "&quot;")) for k, x in a)
+
+
+def _inert_html(d):
+    if d[0] == 0:
+        return _esc(C.show_bytes(d[1]))
+    if d[0] == 1:
+        return "<!>"
+    name = C.show_bytes(d[1])
+    a = "".join(' %s="%s"' % (C.show_bytes(k), _esc(C.show_bytes(x)).replace('"', "&quot;")) for k, x in d[2])
+    if name in VOIDS:
+        return "<%s%s>" % (name, a)
+    return "<%s%s>%s</%s>" % (name, a, "".join(_inert_html(k) for k in d[3]), name)
+
+
+def py_render(v, pos, mode):
+    """(markup, position) of view v; mode 'sync': every Suspend resolved; 'in' / 'ooo': a pending Suspend
+    hands back Position NextChild / the unchanged Position (what the streaming code does today)"""
+    op = v[0]
+    if op in (0, 13):
+        t = C.show_bytes(v[1]) if op == 0 else str(v[1])
+        return ("<!>" if pos == NAT else "") + ((_esc(t) if t else " ") if op == 0 else t), NAT
+    if op in (1, 6):
+        return "<!>", NC
+    if op == 2:
+        inner = py_seq(v[3], FC, mode)[0] if v[3] else ""
+        return "<%s%s>%s</%s>" % (ELEM[v[1]], _attrs_html(v[2]), inner, ELEM[v[1]]), NC
+    if op == 3:
+        return "<%s%s>" % (VOIDS[v[1]], _attrs_html(v[2])), NC
+    if op == 4:
+        return py_seq(v[1], pos, mode)
+    if op in (5, 7, 8, 10):
+        return py_render(v[1], pos, mode)
+    if op in (9, 11):
+        return py_seq(v[1], pos, mode)[0] + "<!>", NC
+    if op == 12:
+        return _inert_html(v[1]), NC
+    if op == 15:
+        content = "".join(C.show_bytes(x[1]) for x in v[3] if x[0] == 1)
+        return "<%s%s>%s</%s>" % (RAWS[v[1]], _attrs_html(v[2]), _esc(content) if v[1] == 0 else content, RAWS[v[1]]), NC
+    if op == 14:
+        h, p = py_render(v[3], pos, mode)
+        if mode == "sync" or not v[2]:
+            return h, p
+        return h, (NC if mode == "in" else pos)
+    return "", pos
+
+
+def py_seq(vs, pos, mode):
+    out = ""
+    for k in vs:
+        h, pos = py_render(k, pos, mode)
+        out += h
+    return out, pos
+
+
+def stale_position_matters(item):
+    c = item["case"]
+    mode = "in" if c[1] == 1 else "ooo"
+    return py_render(c[2], FC, mode)[0] != py_render(c[2], FC, "sync")[0]
 
 
 def attrs_sorted_unique(a):
@@ -254,6 +442,21 @@ def shape_ok(v):
             return shape_ok(v[1])
         if op == 12:
             return inert_shape_ok(v[1], top=True)
+        if op == 14:
+            return len(v) == 4 and v[2] in (0, 1) and shape_ok(v[3])
+        if op == 15:
+            if not (0 <= v[1] < 3 and attrs_ok(v[2])):
+                return False
+            content = b""
+            for part in v[3]:
+                if part[0] == 1:
+                    bytes(part[1]).decode("utf-8")
+                    if 0 in part[1] or 13 in part[1] or (v[1] != 0 and 60 in part[1]):
+                        return False
+                    content += bytes(part[1])
+                elif not (part[0] == 0 and part[1] in (0, 1, 2)):
+                    return False
+            return not (v[1] == 0 and content.startswith(b"\n"))
     except Exception:
         return False
     return False
@@ -302,6 +505,13 @@ def inert_shape_ok(d, top=False):
 
 def valid_case(item):
     c = item["case"]
+    if item.get("kind") == "streamed":
+        if not (isinstance(c, list) and len(c) == 5 and c[0] == 2 and c[1] in (1, 2) and shape_ok(c[2])):
+            return False
+        ids = pending_ids(c[2])
+        all_ids = suspend_ids(c[2])
+        return (bool(ids) and len(set(all_ids)) == len(all_ids) and not has_raw(c[2]) and content_ok(c[2])
+                and all(isinstance(i, int) for i in c[3] + c[4]))
     if item.get("kind") == "streamed-forms":
         return isinstance(c, list) and len(c) == 2 and c[0] == 1 and shape_ok(c[1])
     if not (isinstance(c, list) and len(c) == 3 and c[0] == 0):
@@ -327,14 +537,55 @@ def generate(rng, tier):
         if not content_ok(v2):
             v2 = [0, b("z")]
         kind = "hydrate" if ok else "invalid-nesting"
+        if rng.random() < 0.12:
+            v = add_suspends(rng, v, [], 0.0)          # Suspends whose futures are ready
         yield dict(case=[0, v, v2], kind=kind, compare=True)
-        if i % 10 == 0:
-            yield dict(case=[1, v], kind="streamed-forms", compare=True)
+        if i % 10 == 0 and not pending_ids(v):
+            yield dict(case=[1, strip_suspends(v)], kind="streamed-forms", compare=True)
+        if i % 5 == 0:
+            yield gen_streamed(rng)
+
+
+def gen_streamed(rng):
+    """a view with Suspends whose futures are pending when the server renders it, streamed in order or
+    out of order, futures completed in a chosen order"""
+    while True:
+        if rng.random() < 0.35:
+            # a Suspend among text / element siblings, content starting or ending with text or an element
+            def leaf():
+                return rng.choice([[0, b(gen_text(rng) or "t")], [2, 1, [], []], [13, 7], [0, b("")]])
+            content = rng.choice([leaf(), [4, [leaf(), leaf()]], [2, 1, [], [leaf()]]])
+            sibs = [leaf() for _ in range(rng.randint(0, 2))] + [[14, 1, 1, content]] + [leaf() for _ in range(rng.randint(0, 2))]
+            v = [4, sibs] if rng.random() < 0.5 else [2, rng.choice([0, 1]), [], sibs]
+        else:
+            base = gen_view(rng, rng.choice([1, 2, 2, 3]))
+            if rng.random() < 0.5:
+                base = [2, rng.choice([0, 3, 5]), gen_attrs(rng), [base, gen_view(rng, 1)]]
+            v = add_suspends(rng, base, [], 0.75)
+        ids = pending_ids(v)
+        if ids and not has_raw(v) and content_ok(v):
+            break
+    order = list(ids)
+    rng.shuffle(order)
+    early = [i for i in ids if rng.random() < 0.25]
+    return dict(case=[2, rng.choice([1, 2]), v, early, order], kind="streamed", compare=False)
 
 
 def oracle(item, impl):
     if isinstance(impl, str):
         return "harness error / panic outside hydrate: " + impl[:200]
+    if item.get("kind") == "streamed":
+        if len(impl) == 3 and impl[2] == [0]:
+            return "hydration of the streamed markup failed: a node of the expected kind was not found where the walk looked for it"
+        if len(impl) != 5:
+            return "malformed observation"
+        if impl[2][0] != 1:
+            return "hydration failed"
+        if impl[3] != 1:
+            return "hydrate created, removed or replaced DOM nodes"
+        if impl[4] != 1:
+            return "hydrated DOM (streamed markup) differs from the client-built DOM (marker comments aside)"
+        return None
     if item.get("kind") == "streamed-forms":
         if len(impl) != 3:
             return "malformed observation"
@@ -371,6 +622,8 @@ def oracle(item, impl):
 
 
 def nontrivial(item, model):
+    if item.get("kind") == "streamed":
+        return True
     if isinstance(model, str) or len(model) < 3 or item.get("kind") == "streamed-forms":
         return False
     tree = model[1]
@@ -383,6 +636,16 @@ def nontrivial(item, model):
 
 
 def classify(item, impl, model):
+    if isinstance(impl, str):
+        return None
+    if item.get("kind") == "streamed":
+        # F-C05-d = C07's open finding F-C07-a seen from the hydration side: exactly the streamed cases in
+        # which the Position a pending Suspend hands back changes the markup
+        return "F-C05-d" if stale_position_matters(item) else None
+    if item.get("kind") == "hydrate" and len(impl) >= 6 and impl[2][0] == 1 and impl[3] == 1 \
+            and has_raw_parts(item["case"][1]):
+        # hydration itself succeeded and created nothing: what differs is the content of a raw-text element
+        return "F-C05-c"
     return None
 
 
@@ -418,6 +681,10 @@ def _show(v):
         return "keyed[" + ", ".join(_show(k) for k in v[1]) + "]"
     if op == 12:
         return "inert(%s)" % _show_dom(v[1])
+    if op == 14:
+        return "Suspend#%d%s(%s)" % (v[1], "[pending]" if v[2] else "", _show(v[3]))
+    if op == 15:
+        return "<%s>[%s]" % (RAWS[v[1]], ", ".join(repr(C.show_bytes(x[1])) if x[0] == 1 else ["()", "None", "vec![]"][x[1]] for x in v[3]))
     return "?"
 
 
@@ -433,6 +700,9 @@ def describe(it):
     c = it["case"]
     if c[0] == 1:
         return "streamed forms of %s" % _show(c[1])
+    if c[0] == 2:
+        return "%s stream of %s ; futures completed early %r then %r ; then hydrate" % (
+            "in-order" if c[1] == 1 else "out-of-order", _show(c[2]), c[3], c[4])
     return "hydrate %s ; then rebuild with %s" % (_show(c[1]), _show(c[2]))
 
 
@@ -449,10 +719,12 @@ def coverage_extra(results):
                     walk(k)
             elif v[0] in (5, 7, 8, 10):
                 walk(v[1])
+            elif v[0] == 14:
+                walk(v[3])
         if r["item"]["case"][0] == 0:
             walk(r["item"]["case"][1])
     names = {0: "text", 1: "unit", 2: "element", 3: "void", 4: "tuple", 5: "some", 6: "none", 7: "left", 8: "right",
-             9: "vec", 10: "any", 11: "keyed", 12: "inert", 13: "integer"}
+             9: "vec", 10: "any", 11: "keyed", 12: "inert", 13: "integer", 14: "suspend", 15: "raw-text"}
     return {"view_nodes_by_kind": {names.get(k, str(k)): n for k, n in sorted(feats.items())},
             "hydration_succeeded": sum(1 for r in results if not isinstance(r["impl"], str) and len(r["impl"]) >= 6)}
 
